@@ -68,6 +68,13 @@ def corr(chk, r, n):
         for k, (v, _) in orders.items():
             toks += [str(i) for i in k] + [q(float(a)) for a in v.reshape(-1)]
         idx = drv.add(" ".join(toks))
+        # the documented formula evaluated directly (failing-input oracle on the real function)
+        direct = 0.0
+        for k, (v, _) in orders.items():
+            pref = a_s ** k[0] * q_val ** k[1] * (LR ** k[2]) * (LF ** k[3])
+            direct += pref * sum(v[ai, j] * table[(pid, x)] / x for ai, pid in enumerate(pids) if has[ai] for j, x in enumerate(xgrid))
+        ok_direct = abs(float(out["result"]) - direct) <= 1e-10 * max(1.0, abs(direct))
+        chk.search_case("apply_pdf_vs_documented_formula", ok_direct, what="ESFResult.apply_pdf != sum_o as^k a^l lnR^i lnF^j <v, f/x>", data=dict(Q2=Q2, xiR=xiR, xiF=xiF, keys=[list(k) for k in keys], py=float(out["result"]), formula=direct), sample=None, nontrivial=direct != 0.0)
         sample = dict(Q2=Q2, xiR=xiR, xiF=xiF, keys=[list(k) for k in keys], npid=npid, ngrid=ng, has=has, xs=is_xs, py_result=float(out["result"]))
         pend.append((idx, float(out["result"]), args_ok, sample, f"xiR{'1' if xiR == 1 else 'x'}/xiF{'1' if xiF == 1 else 'x'}/npid{npid}/{'xs' if is_xs else 'sf'}/n{len(keys)}"))
     lines = drv.run()
@@ -143,6 +150,76 @@ def search_alpha_s(chk, r, n):
         chk.search_case("alpha_s_from_theory_card", ok, what=f"{fns} NfFF={nfff}: alpha_s used by apply_pdf does not follow the theory card", data=detail, sample=detail)
 
 
+def lo_alpha_s(Q, aref, Qref, walls):
+    """LO running with nf = 3 + #(walls <= mu^2), continuous at the walls (independent of eko)"""
+    def nf_at(mu2):
+        return 3 + sum(1 for w in walls if w <= mu2)
+
+    def run_to(a, mu2_from, mu2_to, nf):
+        b0 = 11 - 2 * nf / 3
+        return a / (1 + a * b0 / (4 * math.pi) * math.log(mu2_to / mu2_from))
+
+    mu2, target = Qref * Qref, Q * Q
+    a = aref
+    if target >= mu2:
+        for w in sorted(walls):
+            if mu2 < w <= target:
+                a = run_to(a, mu2, w, nf_at(mu2))
+                mu2 = w
+        return run_to(a, mu2, target, nf_at(mu2))
+    for w in sorted(walls, reverse=True):
+        if target < w <= mu2:
+            # below the wall the lower nf applies
+            a = run_to(a, mu2, w, nf_at(mu2)) if mu2 > w else a
+            mu2 = w
+            a_low_nf = 3 + sum(1 for ww in walls if ww < w)
+            nxt = max([ww for ww in walls if ww < w and ww > target] + [target])
+            a = run_to(a, mu2, nxt, a_low_nf)
+            mu2 = nxt
+    if mu2 != target:
+        a = run_to(a, mu2, target, nf_at(target))
+    return a
+
+
+def search_alpha_s_vfns(chk, r, n):
+    """ZM-VFNS with threshold ratios != 1: the coupling changes nf at (k m)^2"""
+    from yadism.esf.result import ESFResult
+    from yadism.output import Output
+
+    for _ in range(n):
+        kc, kb = float(r.choice([1.0, 0.8, 2.0])), float(r.choice([2.0, 1.0, 0.7]))
+        mc, mb, mt = 1.51, 4.92, 172.5
+        aref, Qref = 0.35, 1.2
+        th = cards.theory(PTO=0, FNS="ZM-VFNS", alphas=aref, Qref=Qref, nfref=3, kcThr=kc, kbThr=kb, XIR=float(r.choice([1.0, 0.5, 2.0])), XIF=1.0, Q0=1.0, nf0=3)
+        walls = [(kc * mc) ** 2, (kb * mb) ** 2, mt**2]
+        Qs = sorted({float(math.sqrt(kb) * mb * 1.02), float(kb * mb * 0.97), float(kb * mb * 1.05), float(math.sqrt(kc) * mc * 1.03) if kc != 1 else 2.0, 30.0, 3.0})
+        out = Output()
+        out["xgrid"] = dict(grid=[0.5, 1.0], log=True)
+        out["pids"] = [21]
+        out["F2_total"] = [ESFResult(0.5, Q * Q, None, {(1, 0, 0, 0): (np.array([[1.0, 0.0]]), np.zeros((1, 2)))}) for Q in Qs]
+        out.theory = th
+
+        class P:
+            def hasFlavor(self, pid):
+                return True
+
+            def xfxQ2(self, pid, x, Q2):
+                return x
+
+        try:
+            res = out.apply_pdf(P())
+        except Exception as e:
+            chk.extra.setdefault("search_exceptions", {})
+            k = f"alpha_s_vfns:{type(e).__name__}:{str(e)[:80]}"
+            chk.extra["search_exceptions"][k] = chk.extra["search_exceptions"].get(k, 0) + 1
+            continue
+        got = [4 * math.pi * p["result"] for p in res["F2_total"]]
+        exp = [lo_alpha_s(Q * th["XIR"], aref, Qref, walls) for Q in Qs]
+        bad = [(Q, g, e) for Q, g, e in zip(Qs, got, exp) if abs(g - e) > 2e-6 * e]
+        detail = dict(kcThr=kc, kbThr=kb, XIR=th["XIR"], Qs=Qs, alpha_s=got, lo_reference=exp, mismatches=bad[:3])
+        chk.search_case("alpha_s_vfns_thresholds", not bad, what=f"ZM-VFNS kcThr={kc} kbThr={kb}: alpha_s(xiR*Q) does not switch nf at (k*m)^2", data=detail, sample=detail)
+
+
 def run(tier):
     chk = common.Check("C17", tier)
     thorough = tier == "thorough"
@@ -151,6 +228,7 @@ def run(tier):
     corr(chk, r, 3000 if thorough else 300)
     search_output_dispatch(chk, r)
     search_alpha_s(chk, r, 40 if thorough else 6)
+    search_alpha_s_vfns(chk, r, 20 if thorough else 4)
     chk.assumptions += [
         "PARTIAL: the contraction (orders, powers, logs, masking, linearity) is proved; the construction of alpha_s from the theory card uses eko's Couplings, which is external: it is only observed (reference value reproduced; LO analytic running with nf=NfFF in fixed-flavour schemes)",
         "logarithms and the couplings' values enter the model as rational parameters",
